@@ -158,14 +158,15 @@ class Adapter:
                                alignment=al)
         maw = aw + lg(g)
         subs, pre, rejected = [], [], []
-        for k in range(r.randint(0, 5)):
+        many = aw >= 6 and r.random() < 0.3              # scale: 6-16 subordinates on one decoder
+        for k in range(r.randint(6, 16) if many else r.randint(0, 5)):
             dense = r.random() < 0.65
             sf = {f: r.randint(0, 1) for f in FEATS}
             for f in ("err", "rty", "stall"):
                 sf[f] &= feat[f]
             if dense:
                 sdw, sgran = dw, gran
-                saw = r.randint(1, max(1, aw - 1))
+                saw = r.randint(1, max(1, aw - (4 if many else 1)))
             else:
                 sgran = r.choice([x for x in (8, 16, 32, 64) if x <= gran])
                 sdw = sgran
